@@ -368,13 +368,14 @@ def make_optimizer_class():
 def _build_rank(cfg, samples, weights):
     model = R.build_model(cfg['model'], install=False)
     obs = S.build_obs(cfg['obs'])
+    if cfg.get('native_binner'):
+        # an observation on the model's own grid: its binner hands the input
+        # back (binned IS native, the same array object).  Given through the
+        # observation's public create_binner, which the optimizer asks.
+        from taurex.binning import NativeBinner
+        obs.create_binner = lambda: NativeBinner()
     opt = make_optimizer_class()(obs, model, samples, weights,
                                  cfg['sigma_fraction'])
-    if cfg.get('native_binner'):
-        # an observation on the model's own grid: the binner hands its input
-        # back (binned IS native, the same array object)
-        from taurex.binning import NativeBinner
-        opt._binner = NativeBinner()
     S.configure_optimizer(opt, cfg['fit'], cfg['derived'], model=model,
                           observed=obs)
     opt.compile_params()
